@@ -83,7 +83,7 @@ func split(frames []streams.Frame) (must, upper []drivers.Event) {
 func main() {
 	explore.Main("C05", func(r *explore.Run) {
 		D := r.Pick(3, 4)
-		ds := []drivers.Driver{drivers.ReaderLoop(7), drivers.ReadMessageLoop(), drivers.ReadDataLoop("Generic")}
+		ds := []drivers.Driver{drivers.ReaderLoop(7), drivers.ReadMessageLoop(), drivers.ReadDataLoop("Generic"), drivers.ReaderReceiveLoop()}
 		// entry points that skip (parts of) a message: they meet the offender while discarding
 		// the open message, a path of its own inside the reader
 		skippers := []drivers.Driver{drivers.ReaderDiscard(0), drivers.ReaderDiscard(1), drivers.ReadDataLoop("Text"), drivers.ReadDataLoop("Binary")}
@@ -435,6 +435,110 @@ func main() {
 									})
 								}
 							}
+						}
+					}
+				}
+			}
+		})
+
+		// A caller that reads on after a refusal (it logs the error and asks Read once more, as a
+		// loop written around Read does): whatever was handled before - nothing, a message read to
+		// its end, a control frame whose (possibly empty) payload a handler took without
+		// going through Read to the end - not one byte of the refused frame comes out as data.
+		// (Histories in which the caller abandons a non-empty payload and calls NextFrame are not
+		// part of this: the reader is then out of step by the caller's doing.)
+		r.Part("E2c-reading-on-after-a-refusal", func(t *explore.T) {
+			type hist struct {
+				name   string
+				frames [][2]interface{} // op, payload
+				reads  []int            // bytes the caller reads of each frame (-1: to the end, -2: none at all)
+			}
+			hists := []hist{
+				{"nothing", nil, nil},
+				{"Text(hello) read to its end", [][2]interface{}{{byte(1), "hello"}}, []int{-1}},
+				{"empty Ping handed to a handler", [][2]interface{}{{byte(9), ""}}, []int{-2}},
+				{"Text(hello) read, then an empty Ping handed to a handler", [][2]interface{}{{byte(1), "hello"}, {byte(9), ""}}, []int{-1, -2}},
+				{"Ping(pi) taken with exactly 2 bytes", [][2]interface{}{{byte(9), "pi"}}, []int{2}},
+				{"empty Pong, empty Text read to its end", [][2]interface{}{{byte(10), ""}, {byte(1), ""}}, []int{-2, -1}},
+			}
+			type off struct {
+				name string
+				h    func(server bool) refmodel.Hdr
+				max  int64
+			}
+			offs := []off{
+				{"binary frame of 64 bytes over MaxFrameSize 16", func(sv bool) refmodel.Hdr {
+					return refmodel.Hdr{Fin: true, Op: 2, Masked: sv, Mask: [4]byte{7, 7, 7, 7}, Len: 64}
+				}, 16},
+				{"text frame of 17 bytes over MaxFrameSize 16", func(sv bool) refmodel.Hdr {
+					return refmodel.Hdr{Fin: true, Op: 1, Masked: sv, Mask: [4]byte{}, Len: 17}
+				}, 16},
+				{"reserved opcode 3 with 64 bytes", func(sv bool) refmodel.Hdr {
+					return refmodel.Hdr{Fin: true, Op: 3, Masked: sv, Mask: [4]byte{7, 7, 7, 7}, Len: 64}
+				}, 0},
+				{"RSV1 without extension, 64 bytes", func(sv bool) refmodel.Hdr {
+					return refmodel.Hdr{Fin: true, Rsv: 4, Op: 2, Masked: sv, Mask: [4]byte{7, 7, 7, 7}, Len: 64}
+				}, 0},
+				{"wrong masking for the side, 64 bytes", func(sv bool) refmodel.Hdr {
+					return refmodel.Hdr{Fin: true, Op: 2, Masked: !sv, Mask: [4]byte{7, 7, 7, 7}, Len: 64}
+				}, 16},
+				{"stray continuation of 64 bytes", func(sv bool) refmodel.Hdr {
+					return refmodel.Hdr{Fin: true, Op: 0, Masked: sv, Mask: [4]byte{7, 7, 7, 7}, Len: 64}
+				}, 0},
+			}
+			for _, server := range []bool{true, false} {
+				for _, hi := range hists {
+					for _, o := range offs {
+						for _, ch := range []int{0, 1} {
+							server, hi, o, ch := server, hi, o, ch
+							t.Do(func() string {
+								return fmt.Sprintf("server=%v after [%s] the stream carries a %s; the caller asks Read again after the refusal; chunk=%d", server, hi.name, o.name, ch)
+							}, func() *explore.Fail {
+								var data []byte
+								for _, f := range hi.frames {
+									data = append(data, refmodel.Frame{H: refmodel.Hdr{Fin: true, Op: f[0].(byte), Masked: server, Mask: [4]byte{1, 2, 3, 4}}, Payload: []byte(f[1].(string))}.Wire()...)
+								}
+								oh := o.h(server)
+								data = append(data, refmodel.Frame{H: oh, Payload: marker[:oh.Len]}.Wire()...)
+								side := streams.Client
+								if server {
+									side = streams.Server
+								}
+								data = append(data, canary(side)...)
+								src := env.NewSrc(data)
+								src.Policy = env.FixedChunk(ch)
+								rd := &wsutil.Reader{Source: src, State: drivers.State(side), MaxFrameSize: o.max}
+								for i, f := range hi.frames {
+									if _, err := rd.NextFrame(); err != nil {
+										return explore.Failf("harness-history", "frame %d: %v", i, err)
+									}
+									switch n := hi.reads[i]; {
+									case n == -1:
+										if _, err := io.ReadAll(rd); err != nil {
+											return explore.Failf("harness-history", "read %d: %v", i, err)
+										}
+									case n >= 0:
+										b := make([]byte, n)
+										io.ReadFull(rd, b)
+									}
+									_ = f
+								}
+								_, err := rd.NextFrame()
+								if err == nil {
+									return explore.Failf("offender-not-refused", "%s accepted", o.name)
+								}
+								var leaked []byte
+								buf := make([]byte, 128)
+								for k := 0; k < 3; k++ {
+									n, _ := rd.Read(buf)
+									leaked = append(leaked, buf[:n]...)
+								}
+								if len(leaked) != 0 {
+									return explore.Failf("Read-after-a-refusal-delivers-bytes", "NextFrame: %v; then Read handed out %d bytes: %x", err, len(leaked), leaked)
+								}
+								t.Outcome("nothing-delivered")
+								return nil
+							})
 						}
 					}
 				}
